@@ -900,15 +900,21 @@ class vPeriod(TimeBase):
             raise ValueError('end_or_duration MUST be a datetime, '
                              'date or timedelta instance')
         by_duration = 0
-        if isinstance(end_or_duration, timedelta):
-            by_duration = 1
-            duration = end_or_duration
-            end = start + duration
-        else:
-            end = end_or_duration
-            duration = end - start
-        if start > end:
-            raise ValueError("Start time is greater than end time")
+        try:
+            if isinstance(end_or_duration, timedelta):
+                by_duration = 1
+                duration = end_or_duration
+                end = start + duration
+            else:
+                end = end_or_duration
+                duration = end - start
+            if start > end:
+                raise ValueError("Start time is greater than end time")
+        except TypeError as e:
+            # e.g. a floating start and a UTC end, or a date and a datetime
+            raise ValueError(
+                f"Start and end of a period must be of the same kind: {e}"
+            ) from e
 
         self.params = Parameters({'value': 'PERIOD'})
         # set the timezone identifier
